@@ -245,6 +245,9 @@ type valPlan struct {
 	// straddles: an attestation whose source and target checkpoints lie in different forks
 	straddles bool
 	objDesc   string // own domain / epoch and the other epochs the object carries
+
+	obj core.SignedData // the (unsigned) object the validator's genuine partials are made over
+	ids []int           // share indices of the genuine partials, in list order (valid plans)
 }
 
 type published struct {
@@ -290,6 +293,18 @@ var mustErrorClasses = []string{
 	// signed under another domain: every partial (mixed: 1..len-1 of them) is a genuine share
 	// signature over the object's own root wrapped with a domain that is not the object's own.
 	"other-domain/previous-fork-version", "other-domain/next-fork-version", "other-domain/other-domain-type", "other-domain/other-epoch", "other-domain/mixed",
+}
+
+// crossValidatorClasses: corruptions spread over SEVERAL validators of one call that all sign the
+// same object (same signing root, different group keys) with the same share indices: every
+// involved validator's list contains partials made by another validator's share of the same
+// index, so each of them "contains an invalid share" and nothing at all may be published. Unlike
+// two corruptions inside ONE validator's list these cannot cancel in a per-validator check: the
+// recovered signature is G_A + sum_j lambda_j (s_Bj - s_Aj) H(m), which is G_A only with
+// negligible probability. (They do cancel in the SUM over the validators of the call.)
+var crossValidatorClasses = []string{
+	"cross-validator/swap-one-index", "cross-validator/swap-several-indices", "cross-validator/swap-all-indices",
+	"cross-validator/exchange-whole-sets", "cross-validator/rotate-three", "cross-validator/swap-with-unrelated-third",
 }
 
 // mustErrorPick: the PRNG draws the must-error class from this list (other-domain-type three times:
@@ -700,13 +715,17 @@ func withSig(p core.ParSignedData, m partialMeta, sig [96]byte, how string) (cor
 }
 
 // plan builds the partial list of validator vi for the given class ("valid" or a corruption).
-func (b *builder) plan(vi int, k kind, g *genCtx, class string, ids []int) (*valPlan, error) {
+// shared != nil: the validator signs this very object (the same one as other validators of the call).
+func (b *builder) plan(vi int, k kind, g *genCtx, class string, ids []int, shared core.SignedData) (*valPlan, error) {
 	env, rng := b.env, b.rng
-	obj, err := k.gen(g)
-	if err != nil {
-		return nil, err
+	obj := shared
+	if obj == nil {
+		var err error
+		if obj, err = k.gen(g); err != nil {
+			return nil, err
+		}
 	}
-	p := &valPlan{vi: vi, pub: env.pubs[vi], class: class}
+	p := &valPlan{vi: vi, pub: env.pubs[vi], class: class, obj: obj}
 	add := func(par core.ParSignedData, m partialMeta, err error) error {
 		if err != nil {
 			return err
@@ -782,6 +801,7 @@ func (b *builder) plan(vi int, k kind, g *genCtx, class string, ids []int) (*val
 			return nil, err
 		}
 	}
+	p.ids = append([]int(nil), ids...)
 	j := 0
 	if len(ids) > 0 {
 		j = rng.Intn(len(ids))
@@ -1035,6 +1055,65 @@ func (b *builder) plan(vi int, k kind, g *genCtx, class string, ids []int) (*val
 	return p, nil
 }
 
+// crossCorrupt applies a cross-validator class to already built valid plans: involved = positions
+// of the validators whose lists receive partials made by another involved validator's share of
+// the same index over the same object.
+func (b *builder) crossCorrupt(plans []*valPlan, involved []int, class string) error {
+	rng := b.rng
+	// give: dst's partial labelled id now carries the signature src's share id makes over dst's object
+	give := func(dst, src *valPlan, id int) error {
+		for pos, have := range dst.ids {
+			if have != id {
+				continue
+			}
+			par, m, err := b.partial(dst.obj, b.env.shares[src.vi][id-1], id, fmt.Sprintf("share %d of validator %d (filed under validator %d)", id, src.vi, dst.vi), false, 0)
+			if err != nil {
+				return err
+			}
+			dst.partials[pos], dst.meta[pos] = par, m
+
+			return nil
+		}
+
+		return fmt.Errorf("validator %d has no partial labelled %d", dst.vi, id)
+	}
+	a := plans[involved[0]]
+	ids := append([]int(nil), a.ids...)
+	rng.Shuffle(len(ids), func(i, j int) { ids[i], ids[j] = ids[j], ids[i] })
+	var idx []int // the share indices whose signatures move
+	switch class {
+	case "cross-validator/swap-one-index":
+		idx = ids[:1]
+	case "cross-validator/swap-several-indices":
+		if len(ids) < 3 {
+			return fmt.Errorf("subset of %d indices is too small for 'several'", len(ids))
+		}
+		idx = ids[:2+rng.Intn(len(ids)-2)] // 2..len-1
+	case "cross-validator/swap-all-indices", "cross-validator/exchange-whole-sets":
+		idx = ids
+	default: // rotate-three, swap-with-unrelated-third: one, several or all
+		idx = ids[:1+rng.Intn(len(ids))]
+	}
+	sort.Ints(idx)
+	for i, pos := range involved {
+		dst, src := plans[pos], plans[involved[(i+1)%len(involved)]]
+		moved := idx
+		if class == "cross-validator/exchange-whole-sets" {
+			moved = dst.ids // every partial of dst (its own index subset) is made by src's shares
+		}
+		for _, id := range moved {
+			if err := give(dst, src, id); err != nil {
+				return err
+			}
+		}
+		dst.class = class
+		dst.note = fmt.Sprintf("partials labelled %v carry the signatures validator %d's shares of the same indices made over the same object", moved, src.vi)
+	}
+	b.c.R.Count("cross_validator_sets/"+class, 1)
+
+	return nil
+}
+
 // consistentGenuine: >= t partials, all signed by the share they are labelled with, over one and
 // the same signing root and carrying one and the same signed content, >= t distinct labels.
 func (p *valPlan) consistentGenuine(t int) bool {
@@ -1053,7 +1132,7 @@ func (p *valPlan) consistentGenuine(t int) bool {
 }
 
 func isMustError(class string) bool {
-	if strings.HasPrefix(class, "replayed-first-partial/") {
+	if strings.HasPrefix(class, "replayed-first-partial/") || strings.HasPrefix(class, "cross-validator/") {
 		return true
 	}
 	for _, c := range mustErrorClasses {
@@ -1075,64 +1154,120 @@ func runCase(ctx context.Context, c *kit.Case, ch *chain, mon *monitor, env *clu
 	if rng.Intn(2) == 0 {
 		nv = 2 + rng.Intn(len(env.pubs)-1)
 	}
-	vis := rng.Perm(len(env.pubs))[:nv]
+	// sharedCall: all validators of a multi-validator call sign the SAME object (same signing root
+	// and domain, different group keys) - same-slot sync messages, randao of one epoch, selection
+	// proofs of one slot, attestations with identical data - mostly with the same share indices.
+	sharedCall := nv >= 2 && rng.Intn(100) < 45
 	class := "valid"
 	switch x := rng.Intn(100); {
+	case sharedCall && x < 45:
+		class = crossValidatorClasses[rng.Intn(len(crossValidatorClasses))]
+	case sharedCall && x < 60:
+	case sharedCall && x < 88:
+		class = mustErrorPick[rng.Intn(len(mustErrorPick))]
+	case sharedCall:
+		class = universalOnlyClasses[rng.Intn(len(universalOnlyClasses))]
 	case x < 22:
 	case x < 78:
 		class = mustErrorPick[rng.Intn(len(mustErrorPick))]
 	default:
 		class = universalOnlyClasses[rng.Intn(len(universalOnlyClasses))]
 	}
+	cross := strings.HasPrefix(class, "cross-validator/")
+	if (class == "cross-validator/rotate-three" || class == "cross-validator/swap-with-unrelated-third") && nv < 3 {
+		nv = 3 + rng.Intn(len(env.pubs)-2)
+	}
+	vis := rng.Perm(len(env.pubs))[:nv]
 	victim := rng.Intn(nv)
 
-	set := map[core.PubKey][]core.ParSignedData{}
-	var plans []*valPlan
-	var hashParts []any
-	for pos, vi := range vis {
-		cls := "valid"
-		if pos == victim {
-			cls = class
-		}
-		// threshold subset for this validator
+	// pickIDs: threshold subset of share indices for one validator
+	pickIDs := func(cls string) []int {
 		var ids []int
 		if cls == "valid" && class == "valid" && env.n <= 5 {
 			all := subsetsGE(env.n, env.t)
 			m := all[int(cursor.Add(1))%len(all)]
 			ids = maskIDs(m, env.n)
 			rng.Shuffle(len(ids), func(i, j int) { ids[i], ids[j] = ids[j], ids[i] })
-		} else {
-			size := env.t
-			if rng.Intn(2) == 0 {
-				size = env.t + rng.Intn(env.n-env.t+1)
-			}
-			if cls == "repeated-share-above-threshold" || cls == "duplicate-label-conflict" {
-				size = env.t + rng.Intn(env.n-env.t+1)
-			}
-			if cls == "mixed-two-messages" && size < 2 {
-				size = 2
-			}
-			ids = randSubset(rng, env.n, size)
+
+			return ids
 		}
-		p, err := b.plan(vi, k, g, cls, ids)
+		size := env.t
+		if rng.Intn(2) == 0 {
+			size = env.t + rng.Intn(env.n-env.t+1)
+		}
+		if cls == "repeated-share-above-threshold" || cls == "duplicate-label-conflict" {
+			size = env.t + rng.Intn(env.n-env.t+1)
+		}
+		if (cls == "mixed-two-messages" && size < 2) || (class == "cross-validator/swap-several-indices" && size < 3) {
+			size = max(size, 2)
+			if class == "cross-validator/swap-several-indices" {
+				size = 3 // n >= 3 in every cluster
+			}
+		}
+
+		return randSubset(rng, env.n, size)
+	}
+
+	var (
+		sharedObj core.SignedData
+		sharedIDs []int
+		involved  []int // positions (in vis/plans) of the validators a cross-validator class corrupts
+		ownObject = map[int]bool{}
+	)
+	if sharedCall {
+		var err error
+		if sharedObj, err = k.gen(g); err != nil {
+			r.Inconclusive("case %d: generating %s failed: %v", c.Idx, k.name, err)
+			return
+		}
+		// same share-index subset for all validators; exchanged whole sets (and 20% of the other
+		// non-cross shared calls) also come with different subsets per validator
+		if cross && class != "cross-validator/exchange-whole-sets" || rng.Intn(5) != 0 {
+			sharedIDs = pickIDs("valid")
+		}
+		if cross {
+			perm := rng.Perm(nv)
+			involved = perm[:2]
+			if class == "cross-validator/rotate-three" {
+				involved = perm[:3]
+			}
+			victim = involved[0]
+			for _, pos := range perm[len(involved):] { // bystanders: valid, same object or one of their own
+				ownObject[pos] = rng.Intn(2) == 0
+			}
+			if class == "cross-validator/swap-with-unrelated-third" {
+				ownObject[perm[2]] = true
+			}
+		}
+	}
+
+	var plans []*valPlan
+	var hashParts []any
+	for pos, vi := range vis {
+		cls := "valid"
+		if pos == victim && !cross {
+			cls = class
+		}
+		ids := sharedIDs
+		if ids == nil || ownObject[pos] {
+			ids = pickIDs(cls)
+		} else {
+			ids = append([]int(nil), ids...)
+			rng.Shuffle(len(ids), func(i, j int) { ids[i], ids[j] = ids[j], ids[i] }) // list order differs per validator
+		}
+		obj := sharedObj
+		if ownObject[pos] {
+			obj = nil
+		}
+		p, err := b.plan(vi, k, g, cls, ids, obj)
 		if err != nil {
 			r.Inconclusive("case %d: building %s/%s failed: %v", c.Idx, k.name, cls, err)
 			return
 		}
-		if pos == victim {
+		if pos == victim && !cross {
 			class = p.class // may have fallen back to valid
 		}
-		if len(p.partials) == 0 && rng.Intn(2) == 0 {
-			set[p.pub] = nil
-		} else {
-			set[p.pub] = p.partials
-		}
 		plans = append(plans, p)
-		var labels []int
-		for _, m := range p.meta {
-			labels = append(labels, m.Label)
-		}
-		hashParts = append(hashParts, vi, p.class, labels)
 		if p.class == "valid" && class == "valid" && env.n <= 5 {
 			var m uint32
 			for _, id := range ids {
@@ -1141,6 +1276,39 @@ func runCase(ctx context.Context, c *kit.Case, ch *chain, mon *monitor, env *clu
 			r.Count(fmt.Sprintf("valid_subset/n%d/%s", env.n, maskString(m, env.n)), 1)
 		}
 	}
+	if cross {
+		if err := b.crossCorrupt(plans, involved, class); err != nil {
+			r.Inconclusive("case %d: building %s/%s failed: %v", c.Idx, k.name, class, err)
+			return
+		}
+		for pos, own := range ownObject {
+			if own {
+				plans[pos].note = "bystander: correctly signed set over an object of its own (another signing root)"
+				r.Count("cross_validator_calls_with_unrelated_bystander", 1)
+			} else {
+				plans[pos].note = "bystander: correctly signed set over the shared object"
+			}
+		}
+	}
+	if sharedCall {
+		r.Count("shared_object_calls", 1)
+		r.Count(fmt.Sprintf("shared_object_calls/%d-validators", nv), 1)
+		r.Seen("shared_object_kinds", k.name)
+	}
+	set := map[core.PubKey][]core.ParSignedData{}
+	for _, p := range plans {
+		if len(p.partials) == 0 && rng.Intn(2) == 0 {
+			set[p.pub] = nil
+		} else {
+			set[p.pub] = p.partials
+		}
+		var labels []int
+		for _, m := range p.meta {
+			labels = append(labels, m.Label)
+		}
+		hashParts = append(hashParts, p.vi, p.class, labels, p.note)
+	}
+	hashParts = append(hashParts, sharedCall)
 
 	// newPlan: beacon-node fault plan of a call (travels in the context; see faults_test.go).
 	newPlan := func() *faultPlan {
